@@ -12,13 +12,17 @@
 //! the frameworks' own routing / query-string extraction, and rocket's
 //! FromForm parser (its field names are read from the source).
 //!
-//! Per case: integration, the document and operation name AS DECODED from the
-//! query string, and what the library did (error, or how many query-root and
-//! mutation-root resolvers ran).
+//! Per case: integration, the RAW query string as sent on the wire (bytes; the
+//! Coq model decodes it itself), the document the real parser makes of the
+//! query the library decoded (None = syntax error), the spelling of its
+//! operation names, the request AS DECODED BY THE LIBRARY (query text and
+//! operation name, byte for byte, or a decoding error) and what the library
+//! did with it (error, or how many query-root and mutation-root resolvers ran).
 use std::fmt::Write as _;
 use std::sync::Mutex;
 
 use agv_harness::*;
+use async_graphql::parser::types::DocumentOperations;
 use async_graphql::*;
 
 static LOG: Mutex<[u32; 2]> = Mutex::new([0; 2]); // query-root, mutation-root resolver runs
@@ -61,14 +65,22 @@ fn jstr(s: &str) -> String {
     serde_json::to_string(s).unwrap()
 }
 
-/// One generated GET request before encoding.
+fn g_bytes(b: &[u8]) -> String {
+    let mut o = String::from("[");
+    for (i, c) in b.iter().enumerate() {
+        if i > 0 {
+            o.push(';');
+        }
+        write!(o, "{c}").unwrap();
+    }
+    o.push_str("]%N");
+    o
+}
+
+/// One generated GET request: the raw query string and how it was made.
 struct Get {
-    query: String,
-    opname: Option<String>,
-    /// key under which the operation name is sent ("operation_name" is what
-    /// parse_query_string reads today, "operationName" what rocket reads)
-    opkey: &'static str,
-    variables: Option<String>,
+    raw: String,
+    note: String,
 }
 
 fn gen_op(r: &mut Rng, kind: usize, name: Option<&str>) -> String {
@@ -105,74 +117,212 @@ fn gen_op(r: &mut Rng, kind: usize, name: Option<&str>) -> String {
     }
 }
 
+/// application/x-www-form-urlencoded spellings of one value.
+///  0 form encoding (space -> '+'), 1 space -> %20, 2 every byte %xx (random hex
+///  case), 3 only what must be escaped, 4 a different spelling per character
+fn enc(r: &mut Rng, s: &str, mode: usize) -> String {
+    let mut o = String::new();
+    for &c in s.as_bytes() {
+        let m = if mode == 4 { r.below(4) } else { mode };
+        let plain = c.is_ascii_alphanumeric() || b"*-._".contains(&c);
+        let must = b"&=+%#".contains(&c) || c < 0x21 || c >= 0x7f;
+        let pct = |r: &mut Rng, o: &mut String| {
+            if r.chance(1, 2) {
+                write!(o, "%{c:02X}").unwrap()
+            } else {
+                write!(o, "%{c:02x}").unwrap()
+            }
+        };
+        match m {
+            0 if c == b' ' => o.push('+'),
+            0 | 1 if plain => o.push(c as char),
+            0 | 1 => write!(o, "%{c:02X}").unwrap(),
+            2 => pct(r, &mut o),
+            _ if must => pct(r, &mut o),
+            _ => o.push(c as char),
+        }
+    }
+    o
+}
+
+const KEY_SPELLINGS: [&str; 6] =
+    ["operationName", "operation_name", "operation%4Eame", "%6Fperation_name", "operationName", "operationName"];
+
 fn fixed() -> Vec<Get> {
-    let g = |q: &str, n: Option<&str>, k: &'static str, v: Option<&str>| Get {
-        query: q.to_string(),
-        opname: n.map(|s| s.to_string()),
-        opkey: k,
-        variables: v.map(|s| s.to_string()),
-    };
+    let g = |raw: &str, note: &str| Get { raw: raw.to_string(), note: note.to_string() };
     vec![
         // the witnesses of the finding
-        g("mutation { m }", None, "operation_name", None),
-        g("query A { q } mutation B { m b: m }", Some("B"), "operation_name", None),
-        g("query A { q } mutation B { m b: m }", Some("B"), "operationName", None),
+        g("query=mutation%20%7B%20m%20%7D", "anonymous mutation, no name"),
+        g("query=query%20A%20%7B%20q%20%7D%20mutation%20B%20%7B%20m%20b%3A%20m%20%7D&operation_name=B", "mixed, matching name"),
+        g("query=query%20A%20%7B%20q%20%7D%20mutation%20B%20%7B%20m%20b%3A%20m%20%7D&operationName=B", "mixed, matching name"),
+        // an EMPTY operation name is a name: error, nothing runs
+        g("query=mutation%20M%20%7B%20m%20%7D&operationName=", "named mutation, empty name"),
+        g("query=mutation%20%7B%20m%20%7D&operationName=", "anonymous mutation, empty name"),
+        g("operationName=&query=mutation+M+%7B+m+%7D", "named mutation, empty name first"),
+        g("query=mutation+M+%7B+m+%7D&operation_name=", "named mutation, empty name under the alias"),
+        g("query=mutation+M+%7B+m+%7D&operationName", "named mutation, name key without '='"),
+        g("query=mutation+M+%7B+m+%7D&operation%4Eame=", "named mutation, empty name, encoded key"),
+        g("query=mutation+M+%7B+m2+a%3A+m+%7D&operationName=&variables=%7B%22v%22%3A7%7D", "named mutation, empty name, variables"),
+        g("query=%7B+q+%7D&operationName=", "anonymous query, empty name"),
+        g("query=query+Q+%7B+q+%7D&operationName=", "named query, empty name"),
+        g("query=query+A+%7B+q+%7D+mutation+B+%7B+m+%7D&operationName=", "mixed, empty name"),
+        // blank / non-matching / matching names
+        g("query=mutation+M+%7B+m+%7D&operationName=+", "named mutation, blank name"),
+        g("query=mutation+M+%7B+m+%7D&operationName=%20", "named mutation, blank name"),
+        g("query=mutation+M+%7B+m+%7D&operationName=%09", "named mutation, tab name"),
+        g("query=mutation+M+%7B+m+%7D&operationName=M%20", "named mutation, name + space"),
+        g("query=mutation+M+%7B+m+%7D&operationName=+M", "named mutation, space + name"),
+        g("query=mutation+M+%7B+m+%7D&operationName=m", "named mutation, name in the wrong case"),
+        g("query=mutation+M+%7B+m+%7D&operationName=null", "named mutation, name `null`"),
+        g("query=mutation+M+%7B+m+%7D&operationName=%C3%A9", "named mutation, non-ASCII name"),
+        g("query=mutation+M+%7B+m+%7D&operationName=%4D", "named mutation, matching name percent-encoded"),
+        g("query=mutation+M+%7B+m+%7D&operationName=M", "named mutation, matching name"),
+        g("query=mutation+M+%7B+m+%7D&operationname=&OperationName=", "named mutation, unknown keys only"),
+        g("query=mutation+%7B+m+%7D&operationName=B", "anonymous mutation, a name"),
+        // duplicated parameters
+        g("query=mutation+M+%7B+m+%7D&operationName=&operationName=M", "named mutation, name twice (empty, matching)"),
+        g("query=mutation+M+%7B+m+%7D&operationName=M&operationName=", "named mutation, name twice (matching, empty)"),
+        g("query=mutation+M+%7B+m+%7D&operationName=M&operation_name=", "named mutation, name under both keys"),
+        g("query=mutation+M+%7B+m+%7D&operation_name=&operationName=M", "named mutation, name under both keys"),
+        g("query=mutation+M+%7B+m+%7D&operationName=&operationName=", "named mutation, empty name twice"),
         // boundary cases
-        g("{ q }", None, "operation_name", None),
-        g("query A { q } mutation B { m }", Some("A"), "operation_name", None),
-        g("query A { q } mutation B { m }", None, "operation_name", None),
-        g("query A { q } mutation B { m }", Some("C"), "operation_name", None),
-        g("mutation B { m }", None, "operation_name", None),
-        g("mutation B { m }", Some("B"), "operation_name", None),
-        g("mutation { m }", Some("B"), "operation_name", None),
-        g("mutation B($v: Int) { m2(n: $v) }", Some("B"), "operation_name", Some("{\"v\": 3}")),
-        g("mutation { __typename }", None, "operation_name", None),
-        g("mutation B { m } mutation C { m2 x: m }", Some("C"), "operation_name", None),
-        g("subscription { s }", None, "operation_name", None),
+        g("query=%7B%20q%20%7D", "anonymous query"),
+        g("query=query+A+%7B+q+%7D+mutation+B+%7B+m+%7D&operation_name=A", "mixed, the query by name"),
+        g("query=query+A+%7B+q+%7D+mutation+B+%7B+m+%7D", "mixed, no name"),
+        g("query=query+A+%7B+q+%7D+mutation+B+%7B+m+%7D&operation_name=C", "mixed, non-matching name"),
+        g("query=mutation+B+%7B+m+%7D", "named mutation, no name"),
+        g("query=mutation+B(%24v%3A+Int)+%7B+m2(n%3A+%24v)+%7D&operation_name=B&variables=%7B%22v%22%3A+3%7D", "named mutation with variables"),
+        g("query=mutation+%7B+__typename+%7D", "mutation without a resolver"),
+        g("query=mutation+B+%7B+m+%7D+mutation+C+%7B+m2+x%3A+m+%7D&operation_name=C", "two mutations"),
+        g("query=subscription+%7B+s+%7D", "subscription"),
+        // batches have no GET form: a JSON array as query, repeated query parameters, a bare JSON array
+        g("query=%5B%7B%22query%22%3A%22mutation+%7B+m+%7D%22%7D%5D", "JSON batch inside query"),
+        g("query=mutation+%7B+m+%7D&query=%7B+q+%7D", "query twice"),
+        g("query=%7B+q+%7D&query=mutation+%7B+m+%7D&operationName=", "query twice, empty name"),
+        g("%5B%7B%22query%22%3A%22mutation%20%7B%20m%20%7D%22%7D%5D", "bare JSON batch"),
+        g("operationName=M", "no query"),
+        g("", "empty query string"),
+        g("&&query=mutation+M+%7B+m+%7D&&operationName=&", "named mutation, empty name, empty pieces"),
     ]
 }
 
-fn random(r: &mut Rng) -> Get {
-    let opkey = if r.chance(1, 2) { "operation_name" } else { "operationName" };
-    match r.below(5) {
-        0 => {
-            let k = r.below(2);
-            Get { query: gen_op(r, k, None), opname: None, opkey, variables: None }
+/// a document, the names of its operations and which of them are mutations
+fn gen_doc(r: &mut Rng) -> (String, Vec<(String, bool)>, &'static str) {
+    match r.below(10) {
+        0 | 1 => {
+            // single named mutation
+            let nm = *r.pick(&["M", "Op", "Bump", "m"]);
+            (gen_op(r, 1, Some(nm)), vec![(nm.to_string(), true)], "named mutation")
         }
-        1 => {
+        2 => (gen_op(r, 1, None), vec![], "anonymous mutation"),
+        3 => {
             let k = r.below(2);
-            let q = gen_op(r, k, Some("Op"));
-            Get { query: q, opname: if r.chance(2, 3) { Some("Op".into()) } else { None }, opkey, variables: if r.chance(1, 3) { Some("{\"v\": 7}".into()) } else { None } }
+            let nm = *r.pick(&["Q", "Op"]);
+            if r.chance(1, 2) {
+                (gen_op(r, k, None), vec![], if k == 0 { "anonymous query" } else { "anonymous mutation" })
+            } else {
+                (gen_op(r, k, Some(nm)), vec![(nm.to_string(), k == 1)], if k == 0 { "named query" } else { "named mutation" })
+            }
+        }
+        4 => {
+            // batched: no GET form exists
+            let m = gen_op(r, 1, None);
+            let q = gen_op(r, 0, None);
+            (format!("[{{\"query\":{}}},{{\"query\":{}}}]", jstr(&m), jstr(&q)), vec![], "JSON batch inside query")
         }
         _ => {
-            // mixed document: 2-4 named operations, selected by name (or not / wrongly)
+            // mixed document: 2-4 named operations
             let n = 2 + r.below(3);
             let names = ["A", "B", "C", "D"];
             let mut q = String::new();
+            let mut ops = vec![];
             for (i, nm) in names.iter().enumerate().take(n) {
                 let kind = if i == 0 { r.below(2) } else { 1 - (i + r.below(2)) % 2 };
                 q.push_str(&gen_op(r, kind, Some(nm)));
                 q.push(' ');
+                ops.push((nm.to_string(), kind == 1));
             }
-            let sel = match r.below(8) {
-                0 => None,
-                1 => Some("Z".to_string()),
-                _ => Some(names[r.below(n)].to_string()),
-            };
-            Get { query: q, opname: sel, opkey, variables: if r.chance(1, 2) { Some("{\"v\": 7}".into()) } else { None } }
+            (q, ops, "mixed")
         }
     }
 }
 
-fn encode(g: &Get) -> String {
-    let mut pairs: Vec<(&str, &str)> = vec![("query", &g.query)];
-    if let Some(n) = &g.opname {
-        pairs.push((g.opkey, n));
+fn random(r: &mut Rng) -> Get {
+    let (query, ops, dkind) = gen_doc(r);
+    let qmode = r.below(5);
+    let mut pieces: Vec<String> = vec![format!("query={}", enc(r, &query, qmode))];
+    let key = |r: &mut Rng| KEY_SPELLINGS[r.below(KEY_SPELLINGS.len())];
+    let some_name = |r: &mut Rng, ops: &[(String, bool)]| {
+        if ops.is_empty() { "M".to_string() } else { ops[r.below(ops.len())].0.clone() }
+    };
+    let blanks = ["+", "%20", "%09", "%20%20", "%0A", "+%20"];
+    let note;
+    match r.below(12) {
+        0 | 1 => note = "no name",
+        2 | 3 | 4 => {
+            let k = key(r);
+            pieces.push(if r.chance(1, 6) { k.to_string() } else { format!("{k}=") });
+            note = "empty name";
+        }
+        5 => {
+            pieces.push(format!("{}={}", key(r), r.pick(&blanks)));
+            note = "blank name";
+        }
+        6 | 7 => {
+            let nm = some_name(r, &ops);
+            let wrong = match r.below(7) {
+                0 => "Z".to_string(),
+                1 => format!("{nm} "),
+                2 => format!(" {nm}"),
+                3 => if nm.to_lowercase() != nm { nm.to_lowercase() } else { nm.to_uppercase() },
+                4 => "null".to_string(),
+                5 => format!("{nm}\u{e9}"),
+                _ => format!("{nm}{nm}"),
+            };
+            let m = r.below(5);
+            pieces.push(format!("{}={}", key(r), enc(r, &wrong, m)));
+            note = "non-matching name";
+        }
+        8 | 9 | 10 => {
+            let nm = some_name(r, &ops);
+            let m = r.below(5);
+            pieces.push(format!("{}={}", key(r), enc(r, &nm, m)));
+            note = if ops.is_empty() { "a name" } else { "matching name" };
+        }
+        _ => {
+            // the parameter twice: same key or both keys, one value empty / matching / wrong
+            let nm = some_name(r, &ops);
+            let vals = ["".to_string(), nm.clone(), "Z".to_string(), nm];
+            let (k1, k2) = (key(r), key(r));
+            let (v1, v2) = (r.pick(&vals).clone(), r.pick(&vals).clone());
+            pieces.push(format!("{k1}={}", enc(r, &v1, 0)));
+            pieces.push(format!("{k2}={}", enc(r, &v2, 1)));
+            note = "name twice";
+        }
     }
-    if let Some(v) = &g.variables {
-        pairs.push(("variables", v));
+    if r.chance(1, 3) {
+        let m = r.below(2);
+        pieces.push(format!("variables={}", enc(r, "{\"v\": 7}", m)));
     }
-    serde_urlencoded::to_string(&pairs).unwrap()
+    if r.chance(1, 8) {
+        pieces.push("extensions=%7B%7D".to_string());
+    }
+    if r.chance(1, 8) {
+        pieces.push((*r.pick(&["foo=bar", "operationname=M", "OperationName=", "name=M", "x"])).to_string());
+    }
+    if r.chance(1, 12) {
+        // batched by repetition
+        let m = r.below(2);
+        pieces.push(format!("query={}", enc(r, "{ q }", m)));
+    }
+    if r.chance(1, 2) {
+        r.shuffle(&mut pieces);
+    }
+    let mut raw = pieces.join(if r.chance(1, 10) { "&&" } else { "&" });
+    if r.chance(1, 12) {
+        raw.push('&');
+    }
+    Get { raw, note: format!("{dkind}, {note}") }
 }
 
 /// rocket's `From<GraphQLQuery> for GraphQLRequest`, fed from the same raw
@@ -202,38 +352,68 @@ fn main() {
     let schema = Schema::build(Query, Mutation, EmptySubscription).finish();
     let mut out = String::new();
     let mut reqs = fixed();
-    while reqs.len() < a.n.max(20) {
+    while reqs.len() < a.n.max(60) {
         reqs.push(random(&mut rng));
     }
     let mut ndoc = 0usize;
     for g in &reqs {
-        let raw = encode(g);
+        let raw = &g.raw;
         for integ in INTEGS {
             let decoded = if integ == "Rocket" {
-                rocket_decode(&raw)
+                rocket_decode(raw)
             } else {
-                async_graphql::http::parse_query_string(&raw).ok()
+                async_graphql::http::parse_query_string(raw).ok()
             };
+            let text = format!("[{integ}] GET /?{raw}   ({})", g.note);
             let Some(request) = decoded else {
-                writeln!(out, "UNDECODED\t\t{{\"text\":{}}}", jstr(&format!("[{integ}] GET ?{raw}"))).unwrap();
+                // the integration answers 400 Bad Request; nothing reaches the executor
+                writeln!(
+                    out,
+                    "CASE\t({integ}, {}, None, [], DErr, GError)\t{{\"text\":{},\"impl\":\"rejected by the decoder (400), nothing executed\",\"nontrivial\":false}}",
+                    g_bytes(raw.as_bytes()),
+                    jstr(&text)
+                )
+                .unwrap();
                 continue;
             };
             let opname = request.operation_name.clone();
-            let Ok(parsed) = async_graphql::parser::parse_query(&request.query) else {
-                writeln!(out, "UNPARSED\t\t{{\"text\":{}}}", jstr(&format!("[{integ}] GET ?{raw}"))).unwrap();
-                continue;
-            };
+            let query = request.query.clone();
+            let parsed = async_graphql::parser::parse_query(&request.query).ok();
             take_log();
             let resp = block_on(schema.execute(request));
             let log = take_log();
             let is_err = resp.data == Value::Null && !resp.errors.is_empty();
             let res = if is_err { "GError".to_string() } else { format!("(GRan {} {})", log[0], log[1]) };
-            let dname = format!("d{ndoc}");
-            ndoc += 1;
-            writeln!(out, "DEF\t{dname}\t{}", g_document(&mut it, &parsed)).unwrap();
-            let text = format!("[{integ}] GET ?{raw}   (query={} operation name as decoded={:?})", g.query, opname);
+            let mut uses = String::new();
+            let mut tab: Vec<(String, String)> = vec![];
+            let mut has_mutation = false;
+            let doc_term = match &parsed {
+                Some(doc) => {
+                    let dname = format!("d{ndoc}");
+                    ndoc += 1;
+                    writeln!(out, "DEF\t{dname}\t{}", g_document(&mut it, doc)).unwrap();
+                    uses = jstr(&dname);
+                    match &doc.operations {
+                        DocumentOperations::Single(op) => {
+                            has_mutation |= op.node.ty == async_graphql::parser::types::OperationType::Mutation;
+                        }
+                        DocumentOperations::Multiple(m) => {
+                            let mut names: Vec<&str> = m.keys().map(|k| k.as_str()).collect();
+                            names.sort();
+                            for n in names {
+                                tab.push((it.n(n), g_bytes(n.as_bytes())));
+                            }
+                            has_mutation |= m.values().any(|op| op.node.ty == async_graphql::parser::types::OperationType::Mutation);
+                        }
+                    }
+                    format!("(Some {dname})")
+                }
+                None => "None".to_string(),
+            };
             let impl_h = format!(
-                "{} query-root runs={} mutation-root runs={}{}",
+                "decoded query={:?} operation_name={:?}; {} query-root runs={} mutation-root runs={}{}",
+                query,
+                opname,
                 if is_err { "error" } else { "data" },
                 log[0],
                 log[1],
@@ -241,12 +421,14 @@ fn main() {
             );
             writeln!(
                 out,
-                "CASE\t({integ}, {dname}, {}, {res})\t{{\"uses\":[{}],\"text\":{},\"impl\":{},\"nontrivial\":{}}}",
-                g_opt(opname.as_deref(), |n| it.n(n)),
-                jstr(&dname),
+                "CASE\t({integ}, {}, {doc_term}, {}, (DReq {} {}), {res})\t{{\"uses\":[{uses}],\"text\":{},\"impl\":{},\"nontrivial\":{}}}",
+                g_bytes(raw.as_bytes()),
+                g_list(tab.iter(), |(i, s)| format!("({i}, {s})")),
+                g_bytes(query.as_bytes()),
+                g_opt(opname.as_deref(), |n| g_bytes(n.as_bytes())),
                 jstr(&text),
                 jstr(&impl_h),
-                log[1] > 0 || log[0] > 0
+                log[1] > 0 || log[0] > 0 || has_mutation
             )
             .unwrap();
         }
